@@ -11,7 +11,9 @@ import (
 
 	"github.com/mdzio/go-logging"
 	"verif/harness/core"
+	_ "verif/harness/ackq"
 	_ "verif/harness/codec"
+	_ "verif/harness/topicstore"
 	"verif/harness/ring"
 )
 
